@@ -454,6 +454,23 @@ Bytes ProtoRun::craft(int dir, const Op &op, bool &is_mod, std::string &kind) {
         return make_record(21, ver, body, dtls, epoch, seq);
     }
     if (k == "ccs") { return make_record(20, ver, Bytes{ 1 }, dtls, epoch, seq); }
+    if (k == "ccs_tail") {
+        // a ChangeCipherSpec record with the beginning of a handshake record tacked on in the same datagram / read: a lone type byte, a partial
+        // header, a whole header announcing more than follows (the receiver of a repeated CCS+Finished flight skips "the Finished behind it")
+        Bytes b = make_record(20, ver, Bytes{ 1 }, dtls, epoch, seq);
+        Bytes h = make_record(22, ver, Bytes(), dtls, epoch, seq + 1);      // header only, length 0
+        size_t hl = h.size();
+        switch ((uint64_t) op.b % 6) {
+        case 0: h.resize(1); break;
+        case 1: h.resize(5 < hl ? 5 : hl); break;
+        case 2: h.resize(hl - 1); break;
+        case 3: h[hl - 2] = 0xff; h[hl - 1] = 0xff; break;
+        case 4: h[hl - 2] = 0; h[hl - 1] = 100; for (int i = 0; i < 10; i++) { h.push_back((unsigned char) g.next()); } break;
+        default: h[hl - 2] = 0x40; h[hl - 1] = 0; for (int i = 0; i < 40; i++) { h.push_back((unsigned char) g.next()); } break;
+        }
+        b.insert(b.end(), h.begin(), h.end());
+        return b;
+    }
     if (k == "hsmsg") {
         static const unsigned char T[] = { 0, 1, 2, 4, 11, 12, 13, 14, 15, 16, 20, 8, 24, 5 };
         unsigned char t = T[(uint64_t) op.b % (sizeof T)];
